@@ -1,0 +1,8 @@
+//go:build !verif
+
+// Package verifhook provides named schedule points for the verification
+// harness. Without the build tag "verif" they compile to nothing.
+package verifhook
+
+// Point is a no-op.
+func Point(string) {}
